@@ -76,6 +76,7 @@ func cellsMatch(img map[int]string, row []string) bool {
 func runC09(c *Ctx) {
 	w := GetATWorld()
 	defer runC09Types(c, w)
+	defer runC09BrokenCurrentRows(c, w)
 	rng := NewRng(c.Seed)
 	n := c.Budget(300, 30000)
 	for i := 0; i < n; i++ {
